@@ -38,11 +38,28 @@ def _job(job):
         try:
             if i % 4 == 1:      # every debug category switched on: logging must not change any call or result
                 debug.setLogger(debug.Debug('all', loggerName='verif-null'))
-            tr = realworld.run_world(dirs, w['req'], opts, flavour=(w['texts'] == 'before'))
+            second = None
+            if i % 3 == 2 and w.get('dstKind', 'dir') == 'dir' and not w.get('stubB'):
+                # a session: the SAME compiler (reader, searchers, generators, writer) is asked twice; what the first call
+                # stored is aged to "up to date" in between, so the second call must behave like a first call on that world
+                def between(first):
+                    for e in first['log']:
+                        if e['ev'] == 'put' and e['ans'] == 'ok' and not e['flag']:
+                            os.utime(os.path.join(dirs[3], e['name'] + '.json'), (RW_TIMES['fresh'], RW_TIMES['fresh']))
+                tr, tr2 = realworld.run_world(dirs, w['req'], opts, flavour=(w['texts'] == 'before'), calls=2, between=between)
+                stored = {e['name'] for e in tr['log'] if e['ev'] == 'put' and e['ans'] == 'ok' and not e['flag']}
+                w2 = dict(w)
+                for m, fld in (('AA-MIB', 'dstA'), ('BB-MIB', 'dstB')):
+                    if m in stored:
+                        w2[fld] = 'fresh'
+                if not (stored - {'AA-MIB', 'BB-MIB'}):      # (names the world has no field for cannot be expressed)
+                    second = (w2, tr2)
+            else:
+                tr = realworld.run_world(dirs, w['req'], opts, flavour=(w['texts'] == 'before'))
         finally:
             debug.setLogger(0)
             os.chdir(cwd)
-        return i, tr
+        return i, tr, second
     finally:
         shutil.rmtree(root, ignore_errors=True)
 
@@ -62,11 +79,15 @@ def run(out, prop, tier, seed, only_slices=None):
         if cap and len(worlds) > cap:
             worlds = rnd.sample(worlds, cap)
         traces, raw = [], {}
-        for i, tr in par.pmap(_job, [(i, w, base) for i, w in enumerate(worlds)], chunk=8):
+        for i, tr, second in par.pmap(_job, [(i, w, base) for i, w in enumerate(worlds)], chunk=8):
             tid = '%s-%d' % (label, i)
             raw[tid] = (worlds[i], tr)
             traces.append(mibcompile.to_trace(tid, tr))
             out.evaluations += 1
+            if second is not None:        # second compile() of the same compiler, judged against the world as the first call left it
+                raw[tid + '-again'] = second
+                traces.append(mibcompile.to_trace(tid + '-again', second[1]))
+                out.evaluations += 1
             if any(e['ans'] not in ('data', 'ok', 'absent') for e in tr['log']):
                 out.distinct.add(json.dumps(worlds[i], sort_keys=True))
         verdicts, vres = mibcompile.validate(traces, 2, 2, 1)
@@ -117,7 +138,7 @@ def replay(path):
     with open(path) as fh:
         rp = json.load(fh)['replay']
     base = tlc.mkscratch('rw-replay-')
-    i, tr = _job((0, rp['world'], base))
+    i, tr, _second = _job((0, rp['world'], base))
     t = mibcompile.to_trace('replay', tr)
     v, _ = mibcompile.validate([t], 2, 2, 1, workers=1)
     print(mibcompile.brief(tr))
